@@ -45,7 +45,6 @@ func newInfluxDBOutNode(et *ExecutingTask, n *pipeline.InfluxDBOutNode, d NodeDi
 		batchBuffer: new(edge.BatchBuffer),
 	}
 	in.node.runF = in.runOut
-	in.node.stopF = in.stopOut
 	in.wb.i = in
 	return in, nil
 }
@@ -59,6 +58,10 @@ func (n *InfluxDBOutNode) runOut([]byte) error {
 
 	// Start the write buffer
 	n.wb.start()
+	// Once all input has been consumed, write out what is still buffered and stop the write buffer.
+	// This must not happen any earlier: a task is stopped by closing its source edge and the
+	// points already accepted by the task still have to be written.
+	defer n.wb.stop()
 
 	// Create the database and retention policy
 	if n.i.CreateFlag {
@@ -142,11 +145,6 @@ func (n *InfluxDBOutNode) DeleteGroup(d edge.DeleteGroupMessage) (edge.Message, 
 	return d, nil
 }
 func (n *InfluxDBOutNode) Done() {}
-
-func (n *InfluxDBOutNode) stopOut() {
-	n.wb.flush()
-	n.wb.abort()
-}
 
 func (n *InfluxDBOutNode) write(db, rp string, batch edge.BufferedBatchMessage) error {
 	if n.i.Database != "" {
@@ -244,6 +242,12 @@ func (w *writeBuffer) start() {
 func (w *writeBuffer) flush() {
 	w.flushing <- struct{}{}
 	<-w.flushed
+}
+
+// stop writes all buffered points and stops the write buffer.
+func (w *writeBuffer) stop() {
+	w.flush()
+	w.abort()
 }
 
 func (w *writeBuffer) abort() {
